@@ -84,12 +84,12 @@ def bounds(tier):
         "letter_palette": LETTERS,
         "value_length_all_positions": 3 if q else 4,
         "value_length_key_positions": 4 if q else 5,
-        "key_positions_RCrc": KEY_POSITIONS,
+        "key_positions_RCrc": key_positions(tier),
         "layouts": "1..3 rows x 1..3 columns, every cell position (36)",
         "reserved_words": len(RESERVED),
-        "pair_layouts": "up to 2x2 (8 position pairs)" if q else "all 9 layouts (80 position pairs)",
+        "pair_layouts": "layouts with <= 4 cells (14 position pairs)" if q else "layouts with <= 6 cells (44 position pairs)",
         "names": "one of block/category/column varied over 12 names" if q else "all 12^3 name triples",
-        "container_depth": 4 if q else 5,
+        "container_depth": {i: container_depth(tier, i) for i in sorted(INITS)},
         "container_keys": KEYS + [ABSENT_KEY],
         "container_subjects": [f + "." + lv for f in FLAVOURS for lv in LEVELS],
         "container_inits": sorted(INITS),
@@ -421,6 +421,9 @@ def check_pair(ctx, R, C, p1, p2, v1, v2, letter, single_ok=None):
     ctx.outcome(("pair", mode, c1, c2))
     if mode is None:
         ctx.count("pair_exact")
+        if len(ctx.samples) < 1 and "\n" in v1 and c2 not in ("plain.bare", "empty"):
+            ctx.sample({"kind": "pair", "R": R, "C": C, "p1": list(p1), "p2": list(p2), "v1": v1, "v2": v2,
+                        "result": "round trip exact"})
         return
     if mode == "serialize_error" and (c1 in EITHER_CLASSES or c2 in EITHER_CLASSES):
         ctx.count("unspecified_refused")
@@ -499,7 +502,7 @@ def check_names(ctx, R, C, t, v, letter):
 # ===========================================================================
 FLAVOURS = ["text", "bin"]
 LEVELS = ["file", "block", "category"]
-KEYS = ["a", "b", "_c"]
+KEYS = ["a", "ab", "_c"]
 ABSENT_KEY = "zz"
 
 # value specs: column = ["col", kind, cells]; "." / "?" cells are masked
@@ -512,10 +515,11 @@ COLV = {
 CATV = {
     "k1": [["p", "c1"]],
     "k2": [["p", "c2"], ["q", "c1"]],
+    "k3": [["p", "c3"], ["pq", "c3"]],  # single-row syntax; two of them side by side test the category boundary
 }
 BLKV = {
     "b1": [["s", "k1"]],
-    "b2": [["s", "k2"], ["t", "k1"]],
+    "b2": [["s", "k3"], ["s_t", "k3"], ["u", "k2"]],  # one category name is a prefix of the next
     "b0": [],
 }
 
@@ -540,7 +544,7 @@ def value_names(level, flavour):
     if level == "file":
         return ["b1", "b2", "b0"]
     if level == "block":
-        return ["k1", "k2"]
+        return ["k1", "k2", "k3"]
     return ["c1", "c2", "c3"] + (["n1"] if flavour == "bin" else [])
 
 
@@ -557,7 +561,7 @@ INITS = {
     "empty": [],
     "one": [("a", 0)],
     "two": [("a", 0), ("_c", 1)],
-    "two_parsed": [("b", 1), ("a", 0)],
+    "two_parsed": [("ab", 1), ("a", 0)],
 }
 
 
@@ -779,12 +783,12 @@ def gen_ops(level, flavour):
         ops += [["get", k], ["del", k], ["in", k], ["pop", k], ["popd", k], ["getd", k]]
     ops += [["len"], ["iter"], ["keys"], ["items"], ["values"], ["eq_twin"], ["eq_pert"], ["eq_other"],
             ["serialize"], ["reparse"]]
-    ops.append(["update", [["b", vn[0]], ["a", vn[1]]]])
+    ops.append(["update", [["ab", vn[0]], ["a", vn[1]]]])
     ops.append(["update", [["_c", vn[1]]]])
     if level in ("file", "block"):
         ops.append(["set_wrong", "a"])
     if level == "category":
-        ops.append(["set_raw", "b"])
+        ops.append(["set_raw", "ab"])
     return ops
 
 
@@ -1273,18 +1277,28 @@ def run_history(shard, ctx):
 # ---------------------------------------------------------------------------
 # shards / dispatch
 # ---------------------------------------------------------------------------
+def container_depth(tier, init):
+    """depth 4 (quick) / 5 (thorough) from the empty and from the parsed container; the states of 'one' and 'two'
+    are reached from 'empty' after 1 and 2 operations, so their own BFS stops one level earlier."""
+    d = 4 if tier == "quick" else 5
+    return d if init in ("empty", "two_parsed") else d - 1
+
+
+def key_positions(tier):
+    return KEY_POSITIONS if tier == "quick" else KEY_POSITIONS[:2]
+
+
 def shards(tier, seed):
     q = tier == "quick"
     out = []
     # containers first (longest)
-    depth = 4 if q else 5
     for flavour in FLAVOURS:
         for level in LEVELS:
             for init in INITS:
                 nres = 1  # one shard per (flavour, level, init): state deduplication is per shard
                 for r in range(nres):
-                    out.append({"kind": "history", "flavour": flavour, "level": level, "init": init, "depth": depth,
-                                "res": r, "nres": nres})
+                    out.append({"kind": "history", "flavour": flavour, "level": level, "init": init,
+                                "depth": container_depth(tier, init), "res": r, "nres": nres})
     # tables, deviation 1, all positions
     full = 3 if q else 4
     for (R, C) in LAYOUTS:
@@ -1298,7 +1312,7 @@ def shards(tier, seed):
                     out.append({"kind": "table", "R": R, "C": C, "positions": [p], "maxlen": full, "part": part,
                                 "parts": parts, "extras": part == 0})
     # longer values at the key positions
-    for (R, C, r, c) in KEY_POSITIONS:
+    for (R, C, r, c) in key_positions(tier):
         parts = 6 if q else 40
         for part in range(parts):
             out.append({"kind": "table", "R": R, "C": C, "positions": [[r, c]], "maxlen": full + 1, "minlen": full + 1,
@@ -1306,8 +1320,8 @@ def shards(tier, seed):
     # pairs
     for (R, C) in LAYOUTS:
         n = R * C
-        if n < 2 or (q and n > 4):
-            continue
+        if n < 2 or (q and n > 4) or n > 6:
+            continue  # every relation between two cells (adjacent / distant in a row, same column, diagonal) occurs in <= 6 cells
         parts = max(1, (n * (n - 1) // 2) * (1 if q else 2))
         for part in range(parts):
             out.append({"kind": "pairs", "R": R, "C": C, "part": part, "parts": parts})
@@ -1321,7 +1335,11 @@ def shards(tier, seed):
     heavy = [s for s in out if s["kind"] == "history"]
     rest = [s for s in out if s["kind"] != "history"]
     rot = seed % max(1, len(rest))
-    return heavy + rest[rot:] + rest[:rot]
+    rest = rest[rot:] + rest[:rot]
+    # two small shards first so that the evidence samples show a table and a pair case next to the histories
+    lead = [x for x in rest if x["kind"] == "table" and (x["R"], x["C"]) == (1, 2)][:1] + \
+           [x for x in rest if x["kind"] == "pairs" and (x["R"], x["C"]) == (1, 2)][:1]
+    return lead + heavy + [x for x in rest if x not in lead]
 
 
 def run_shard(shard, ctx):
